@@ -33,6 +33,7 @@ type world struct {
 	v1, v2, pA, pB, idx, ref1        *gen.Node
 	nImg, nUnt, nChild, nArt1, nArt2 *gen.Node
 	newBlob                          *gen.Node
+	l1                               *gen.Node // a layer every image of the populated state uses
 	fb1                              []byte
 	fb1Digest                        string
 	spare                            map[int]bool // nodes that are inputs of operations, not part of the populated state
@@ -104,6 +105,7 @@ func newWorld(work string, round int, w0 *modelreg.World) (*world, error) {
 			Annotations: map[string]string{"org.example.n": fmt.Sprint(n)}})
 	}
 	L1, L2, L3 := layer(), layer(), layer()
+	w.l1 = L1
 	w.v1 = img(nil, L1, L2)
 	w.v2 = img(nil, L1, L3)
 	amd, arm := &la.Platform{OS: "linux", Architecture: "amd64"}, &la.Platform{OS: "linux", Architecture: "arm64"}
@@ -134,6 +136,9 @@ func newWorld(work string, round int, w0 *modelreg.World) (*world, error) {
 	w.fb1 = fb
 	w.fb1Digest = la.Digest("sha256", fb)
 	w.kinds[w.fb1Digest] = "fallback-index"
+	if err := os.WriteFile(filepath.Join(w.in, "oldblob"), w.l1.Content, 0o644); err != nil {
+		return nil, err
+	}
 	for name, n := range map[string]*gen.Node{"blob": w.newBlob, "nimg": w.nImg, "nunt": w.nUnt, "nchild": w.nChild, "nart1": w.nArt1, "nart2": w.nArt2} {
 		if err := os.WriteFile(filepath.Join(w.in, name), n.Content, 0o644); err != nil {
 			return nil, err
@@ -198,7 +203,9 @@ func (w *world) writeState(state, dir string) error {
 	if err := gen.WriteLayoutBlob(dir, w.fb1Digest, w.fb1); err != nil {
 		return err
 	}
-	entries := []gen.Obj{desc(w.v1, "v1"), desc(w.v2, "v2"), desc(w.idx, "idx"), desc(w.ref1, ""),
+	// besides v1, v2 and idx: tags whose names merely END with those names (they point at manifests no operation
+	// deletes), so that an operation on "v2" that matches by suffix shows as the loss of another tag
+	entries := []gen.Obj{desc(w.v1, "v1"), desc(w.v2, "v2"), desc(w.idx, "idx"), desc(w.v1, "rc-v2"), desc(w.v1, "x.idx"), desc(w.idx, "my-v1"), desc(w.ref1, ""),
 		{{K: "mediaType", V: la.MTOCIIndex}, {K: "digest", V: w.fb1Digest}, {K: "size", V: len(w.fb1)}, {K: "annotations", V: map[string]string{la.AnnotRefName: fallbackTag(w.v1.Digest)}}}}
 	if state == "populated" {
 		return gen.WriteLayoutIndex(dir, entries)
@@ -336,6 +343,10 @@ func (w *world) cases(state string) []*opCase {
 			known, v = []string{"known=1"}, "digest-known"
 		}
 		add(&opCase{Op: "blob-put", Variant: v, DrvOp: "blob-put", Args: append([]string{in("blob")}, known...), Expect: fileOK(w.newBlob)})
+		if pop {
+			// the same bytes pushed again: a layer that every tag of the populated layout uses is replaced by itself
+			add(&opCase{Op: "blob-put", Variant: "existing-blob-in-use/" + v, DrvOp: "blob-put", Args: append([]string{in("oldblob")}, known...), Expect: fileOK(w.l1)})
+		}
 	}
 	// manifest put, tagged: a new tag everywhere; in populated states also over an existing tag
 	add(&opCase{Op: "manifest-put-tagged", Variant: "new-tag", DrvOp: "manifest-put", Args: []string{in("nimg"), "tag=v3"}, Targets: map[string]bool{"v3": true}, Expect: tagIs("v3", w.nImg)})
